@@ -27,7 +27,7 @@ PKG = "hvsrpy"
 def _baseline():
     from .normalize import load_baseline
     base = load_baseline()
-    funcs = {q for q in base if not q.startswith(("const:", "sig:", "pos:"))}
+    funcs = {q for q in base if not q.startswith(("const:", "sig:", "pos:", "cval:"))}
     consts = {q[6:] for q in base if q.startswith("const:")}
     modules = {q.split(".")[0] for q in funcs | consts}
     return funcs, consts, modules
@@ -431,4 +431,60 @@ def restore_function_names(trees: Dict[str, ast.Module]) -> List[Tuple[str, str,
                 x.value = renames[x.value]
             elif isinstance(x, ast.keyword) and x.arg in renames:
                 pass
+    return [d for d in done if d[1] in renames]
+
+
+def restore_constant_names(trees: Dict[str, ast.Module]) -> List[Tuple[str, str, str]]:
+    """A pinned module-level constant that is gone while its module has a *new* one with the pinned value (or, failing that, exactly one
+    new constant of the same kind of value when exactly one pinned constant of that kind is gone) was renamed: it gets its pinned name
+    back, with every reference in the package."""
+    import hashlib
+    from .normalize import load_baseline
+    base = load_baseline()
+    cvals: Dict[str, Tuple[str, str]] = {}
+    for b in base:
+        if b.startswith("cval:") and "=" in b:
+            q, v = b[5:].split("=", 1)
+            dg, _, kind = v.partition(":")
+            cvals[q] = (dg, kind)
+    if not cvals:
+        return []
+    _funcs, consts, base_modules = _baseline()
+    renames: Dict[str, str] = {}
+    done: List[Tuple[str, str, str]] = []
+    for m in sorted(trees):
+        if m not in base_modules:
+            continue
+        tree = trees[m]
+        mb = _bindings(tree)
+        pinned_here = {q.split(".", 1)[1] for q in cvals if q.split(".")[0] == m and q.count(".") == 1}
+        missing = sorted(n for n in pinned_here if n not in mb)
+        new = {n: node for n, (kind, node) in mb.items() if kind == "assign" and isinstance(node, ast.Assign) and n not in pinned_here and f"{m}.{n}" not in consts}
+        for old in missing:
+            dg, kind = cvals[f"{m}.{old}"]
+            cands = [n for n, node in new.items() if hashlib.sha1(ast.dump(node.value).encode()).hexdigest()[:16] == dg and n not in renames]
+            if not cands:
+                same_kind_missing = [o for o in missing if cvals[f"{m}.{o}"][1] == kind]
+                cands = [n for n, node in new.items() if type(node.value).__name__ == kind and n not in renames]
+                if len(same_kind_missing) != 1:
+                    cands = []
+            if len(cands) == 1:
+                renames[cands[0]] = old
+                done.append((m, cands[0], old))
+    if not renames:
+        return done
+    for g in list(renames):
+        n_defs = sum(1 for t in trees.values() for st in t.body if isinstance(st, ast.Assign) and any(isinstance(x, ast.Name) and x.id == g for x in st.targets))
+        if n_defs != 1:
+            del renames[g]
+    for t in trees.values():
+        for x in ast.walk(t):
+            if isinstance(x, ast.Name) and x.id in renames:
+                x.id = renames[x.id]
+            elif isinstance(x, ast.Attribute) and x.attr in renames:
+                x.attr = renames[x.attr]
+            elif isinstance(x, ast.alias) and x.name in renames:
+                x.name = renames[x.name]
+            elif isinstance(x, ast.Constant) and isinstance(x.value, str) and x.value in renames:
+                x.value = renames[x.value]
     return [d for d in done if d[1] in renames]
